@@ -58,7 +58,8 @@ fn run_bindrow(case: &str, ctx: &mut Ctx) -> String {
     let rctx = RowSerializationContext::from_specs(&specs);
     // the values (as CqlValues: positional, or keyed)
     let mut vals: Vec<(String, CqlValue)> = Vec::new();
-    for it in if kind == "tup3" { vec![] } else { items(segs[2]) } {
+    let fixed_kind = matches!(kind, "tup3" | "tup2" | "tup1" | "unit" | "u80");
+    for it in if fixed_kind { vec![] } else { items(segs[2]) } {
         let toks: Vec<&str> = it.split_whitespace().collect();
         let (name, r, shape) = if kind == "map" {
             if toks.len() < 3 { return "bad-case".to_owned() }
@@ -102,6 +103,34 @@ fn run_bindrow(case: &str, ctx: &mut Ctx) -> String {
             expected_ok = cols.len() == 3 && fits_all;
             SerializedValues::from_serializable(&rctx, &t)
         }
+        // the other arities, and the two empty rows `()` / `[u8; 0]`
+        "tup1" | "tup2" | "unit" | "u80" => {
+            let eq: Vec<CqlValue> = match kind {
+                "tup1" => vec![CqlValue::Int(42)],
+                "tup2" => vec![CqlValue::Int(42), CqlValue::Text("abc".into())],
+                _ => vec![],
+            };
+            let want = match kind {
+                "tup1" => format!("x {}", 42i32.shape(false)),
+                "tup2" => format!("x {} ; x {}", 42i32.shape(false), "abc".to_owned().shape(false)),
+                _ => "-".to_owned(),
+            };
+            if segs[2] != want {
+                return "bad-case tuple-values".to_owned();
+            }
+            fits_all = eq.iter().zip(&cols).all(|(v, (_, t))| dyn_fits(v, t));
+            expected_ok = cols.len() == eq.len() && fits_all;
+            let r = match kind {
+                "tup1" => SerializedValues::from_serializable(&rctx, &(42i32,)),
+                "tup2" => SerializedValues::from_serializable(&rctx, &(42i32, "abc".to_owned())),
+                "unit" => SerializedValues::from_serializable(&rctx, &()),
+                _ => SerializedValues::from_serializable(&rctx, &[0u8; 0]),
+            };
+            if cols.len() != eq.len() && !matches!(&r, Err(e) if bind_err_str(e) == "err WrongColumnCount") {
+                ctx.fail(format!("row-bind: {} values for {} bind markers was not refused as WrongColumnCount", eq.len(), cols.len()));
+            }
+            r
+        }
         "map" => {
             let hm: HashMap<String, CqlValue> = vals.iter().cloned().collect();
             let bm: BTreeMap<&str, CqlValue> = vals.iter().map(|(n, v)| (n.as_str(), v.clone())).collect();
@@ -123,6 +152,21 @@ fn run_bindrow(case: &str, ctx: &mut Ctx) -> String {
                 }
                 if !all_used {
                     ctx.fail("row-bind: a value whose name matches no bind marker was silently dropped".to_owned());
+                }
+            }
+            if let Err(e) = &a {
+                let s = bind_err_str(e);
+                if let Some(name) = s.strip_prefix("err NoColumnWithName ") {
+                    let min_unused = hm.keys().filter(|k| !cols.iter().any(|(n, _)| n == *k)).min();
+                    if min_unused.map(|k| k.as_str()) != Some(name) {
+                        ctx.fail(format!("row-bind: NoColumnWithName names `{}`, the smallest unused key is {:?}", name, min_unused));
+                    }
+                }
+                if let Some(name) = s.strip_prefix("err ValueMissingForColumn ") {
+                    let first_missing = cols.iter().map(|(n, _)| n).find(|n| !hm.contains_key(*n));
+                    if first_missing.map(|k| k.as_str()) != Some(name) {
+                        ctx.fail(format!("row-bind: ValueMissingForColumn names `{}`, the first marker without a value is {:?}", name, first_missing));
+                    }
                 }
             }
             a
